@@ -404,11 +404,19 @@ PLAIN_SHAPES = [s.replace("C1", _C1).replace("C2", _C2) for s in [
     "struct S<T> where T: Clone { a: H<T, 1> }", "struct S<T> where T: Clone, { a: H<T, 1> }", "struct S<'a, T: 'a>(H<&'a T, 1>);", "struct S<'a, 'b: 'a, T: 'a + 'b>(H<&'a &'b T, 1>);",
     "enum S<T> { A(H<T, 1>), B }", "enum S<'a, T: 'a, const N: usize> { A(H<&'a T, N>) }", "enum S<T, U> { A(H<T, 1>), B { b: H<U, 2> } }",
     "struct S<T>(H<T, 1>, H<T, 2>);", "struct S<T, U> { a: H<T, 1>, b: H<U, 2> }",
+    # the deriving type itself deprecated: the expansion names it in every impl header and body
+    "#[deprecated] struct S(C1);", "#[deprecated] struct S { a: C1 }", "#[deprecated] struct S(C1, C2);", "#[deprecated] enum S { A(C1), B }", "#[deprecated] enum S { A = 1, B }",
+    "#[deprecated] enum S { A(C1), B(C2) }", "#[deprecated] struct S<T>(H<T, 1>);", "#[deprecated] enum S { A { a: C1, b: C2 } }",
 ]]
 # field types of every syntactic kind, for the derives that ask nothing of a field's type (conversions, constructors, accessors)
 EXOTIC_TYPES = ["fn(u8) -> u8", "*const u8", "[u8; 4]", "(u8, i8)", "&'static str", "Box<dyn Fn(u8) -> u8 + Send + 'static>", "&'static (dyn ::core::any::Any + Send)",
                 "Option<&'static u8>", "::core::marker::PhantomData<u8>", "&'static [u8]", "for<'x> fn(&'x u8) -> &'x u8", "Box<dyn for<'x> Fn(&'x u8) -> &'x u8>",
-                "<u8 as Tr>::A", "Vec<Vec<u8>>", "Option<Option<Box<[u8]>>>", "(u8,)", "[[u8; 2]; 2]", "*mut [u8]", "unsafe extern \"C\" fn(u8)", "::std::string::String"]
+                "<u8 as Tr>::A", "Vec<Vec<u8>>", "Option<Option<Box<[u8]>>>", "(u8,)", "[[u8; 2]; 2]", "*mut [u8]", "unsafe extern \"C\" fn(u8)", "::std::string::String",
+                # constant expressions of every kind as array lengths and const arguments (all valid in a type definition)
+                "[i8; if true { 1 } else { 2 }]", "[u16; { let x = 1; x }]", "[i16; const { 1 }]", "[u32; match 2usize { 2 => 1, _ => 3 }]", "[i32; [1, 2][0]]",
+                "H<(), { if true { 5 } else { 2 } }>", "[u64; loop { break 1 }]",
+                # the deriving type named `Self` inside its own fields
+                "Option<Box<Self>>", "Vec<Self>", "fn(&Self) -> u8", "*const Self"]
 AGNOSTIC = ["Constructor", "From", "Into", "IsVariant", "Unwrap", "TryUnwrap", "TryInto", "TryFrom"]
 EXOTIC_SHAPES = (["struct S(%s);" % t for t in EXOTIC_TYPES] + ["struct S { a: %s, b: u8 }" % t for t in EXOTIC_TYPES] +
                  ["enum S { A(%s), B { x: %s }, Cc }" % (t, EXOTIC_TYPES[(i + 1) % len(EXOTIC_TYPES)]) for i, t in enumerate(EXOTIC_TYPES)] +
@@ -499,6 +507,14 @@ def part_accepted_compiles(chk, thorough):
             for a in container_attrs(d):
                 if d != "TryFrom" and "forward" not in a:      # (`forward` asks `FieldTy: From<T>` of the type: not type-agnostic)
                     pairs.append((d, "%s %s" % (a, it)))
+    # `Self` in the field of the derives that ask a trait of the field's type
+    for d, pre in (("IntoIterator", "#[into_iterator(owned, ref, ref_mut)] "), ("IntoIterator", ""), ("Index", ""), ("IndexMut", ""), ("Deref", ""), ("DerefMut", ""), ("Deref", "#[deref(forward)] "),
+                   ("AsRef", ""), ("AsMut", ""), ("AsRef", "#[as_ref(forward)] "), ("From", "#[from(forward)] "), ("Into", "#[into(owned, ref, ref_mut)] ")):
+        for it in ("struct S(Vec<Self>);", "struct S { a: Vec<Self> }", "struct S<T>(Vec<Self>, ::core::marker::PhantomData<T>);"):
+            if "<T>" in it and d not in ("Into",):
+                it = it.replace("Vec<Self>", "#[%s] Vec<Self>" % {"IntoIterator": "into_iterator", "IndexMut": "index_mut", "DerefMut": "deref_mut", "AsRef": "as_ref", "AsMut": "as_mut"}.get(d, d.lower())) if d not in ("From",) else None
+            if it:
+                pairs.append((d, pre + it))
     res = svc([{"derive": d, "item": it} for d, it in pairs])
     # helper attributes on the first / the last / every variant or field of every shape (placed by the engine, which also returns the text)
     dreqs = []
